@@ -347,6 +347,139 @@ fn datagrams_from_transmit(transmit: &Transmit<'_>) -> Datagrams {
     }
 }
 
+/// Verification constructor for property C17 (compiled only with `--cfg iroh_verif`): a
+/// [`RelayTransport`] whose receive queue is fed by the harness instead of a relay actor.
+#[cfg(iroh_verif)]
+#[allow(missing_docs, unreachable_pub, missing_debug_implementations, dead_code, clippy::unwrap_used)]
+pub(crate) mod verif_c17 {
+    use std::task::Waker;
+
+    use super::*;
+
+    /// One message slot filled by `poll_recv`.
+    #[derive(Debug, Clone)]
+    pub struct RecvMsg {
+        /// `buf[..meta.len]`
+        pub data: Vec<u8>,
+        pub stride: usize,
+        pub src: Option<EndpointId>,
+        pub url: Option<RelayUrl>,
+    }
+
+    #[derive(Debug)]
+    pub enum PollOutcome {
+        Pending,
+        Ready(Vec<RecvMsg>),
+        Err(io::ErrorKind),
+    }
+
+    #[derive(Debug)]
+    pub struct RelayRecvHarness {
+        transport: RelayTransport,
+        tx: Option<mpsc::Sender<RelayRecvDatagram>>,
+        _send_rx: mpsc::Receiver<RelaySendItem>,
+        _actor_rx: mpsc::Receiver<RelayActorMessage>,
+    }
+
+    impl RelayRecvHarness {
+        /// Must be called within a tokio runtime context (a no-op task stands in for the actor).
+        pub fn new(my_endpoint_id: EndpointId, queue_capacity: usize) -> Self {
+            let (send_tx, send_rx) = mpsc::channel(1);
+            let (recv_tx, recv_rx) = mpsc::channel(queue_capacity);
+            let (actor_sender, actor_rx) = mpsc::channel(1);
+            let transport = RelayTransport {
+                relay_datagram_recv_queue: recv_rx,
+                relay_datagram_send_channel: send_tx,
+                pending_item: None,
+                actor_sender,
+                _actor_handle: AbortOnDropHandle::new(task::spawn(async {})),
+                my_relay: HomeRelayWatch::default(),
+                my_endpoint_id,
+            };
+            Self {
+                transport,
+                tx: Some(recv_tx),
+                _send_rx: send_rx,
+                _actor_rx: actor_rx,
+            }
+        }
+
+        /// Queues one batch as the relay actor would. Returns false if the queue is full or closed.
+        pub fn push(
+            &self,
+            url: RelayUrl,
+            src: EndpointId,
+            ecn: Option<u8>,
+            segment_size: Option<u16>,
+            contents: &[u8],
+        ) -> bool {
+            let datagrams = Datagrams {
+                ecn: ecn.and_then(|e| match e {
+                    0b10 => Some(noq_proto::EcnCodepoint::Ect0),
+                    0b01 => Some(noq_proto::EcnCodepoint::Ect1),
+                    0b11 => Some(noq_proto::EcnCodepoint::Ce),
+                    _ => None,
+                }),
+                segment_size: segment_size.and_then(NonZeroU16::new),
+                contents: Bytes::copy_from_slice(contents),
+            };
+            match &self.tx {
+                Some(tx) => tx
+                    .try_send(RelayRecvDatagram {
+                        url,
+                        src,
+                        datagrams,
+                    })
+                    .is_ok(),
+                None => false,
+            }
+        }
+
+        /// Drops the sending side of the receive queue (relay actor gone).
+        pub fn close(&mut self) {
+            self.tx = None;
+        }
+
+        /// Calls the real `poll_recv` with `nbufs` buffers of `buflen` bytes each.
+        pub fn poll_recv(&mut self, waker: &Waker, nbufs: usize, buflen: usize) -> PollOutcome {
+            let mut storage = vec![vec![0xEEu8; buflen]; nbufs];
+            let mut bufs: Vec<io::IoSliceMut<'_>> =
+                storage.iter_mut().map(|b| io::IoSliceMut::new(b)).collect();
+            let mut metas = vec![noq_udp::RecvMeta::default(); nbufs];
+            let mut infos = vec![RecvInfo::default(); nbufs];
+            let mut cx = Context::from_waker(waker);
+            match self
+                .transport
+                .poll_recv(&mut cx, &mut bufs, &mut metas, &mut infos)
+            {
+                Poll::Pending => PollOutcome::Pending,
+                Poll::Ready(Err(err)) => PollOutcome::Err(err.kind()),
+                Poll::Ready(Ok(n)) => {
+                    drop(bufs);
+                    let msgs = (0..n)
+                        .map(|i| {
+                            let len = metas[i].len.min(buflen);
+                            let (src, url) = match infos[i].remote() {
+                                super::super::Addr::Relay(url, src) => {
+                                    (Some(*src), Some(url.clone()))
+                                }
+                                _ => (None, None),
+                            };
+                            RecvMsg {
+                                data: storage[i][..len].to_vec(),
+                                stride: metas[i].stride,
+                                src,
+                                url,
+                            }
+                        })
+                        .collect();
+                    PollOutcome::Ready(msgs)
+                }
+            }
+        }
+    }
+}
+
 #[cfg(test)]
 mod tests {
     use std::{collections::BTreeSet, time::Duration};
